@@ -37,6 +37,16 @@ CHECKS = {
         'note': _NOTE + ' Tie order is free.  Infinite chi^2 from remove_resolved is not produced through the fitter here.',
         'technique': 'TLA+ spec + TLC; spec->code replay of whole FitInfo rows; trace validation (rank, ids, predicted fluxes)',
     },
+    'C06': {
+        'text': 'RebinOps.tla defines the binned response exactly: bins bounded by midpoints of adjacent SED frequencies, clipped to the filter range, R_i = exact integral of the piecewise-linear response (PwLin).  '
+                'Rebin.tla enumerates every filter (2..3 nodes quick / 2..4 thorough out of 6-8 lattice frequencies, responses {0,1,2}, zero and non-zero edges) x every SED grid (2..4 / 2..5 nodes: coarser, finer, partial, disjoint, '
+                'edge-coincident, last bin containing the last-but-one filter node) and TLC checks sum_i R_i = integral over the overlap, non-negativity, zero outside the filter, flat spectrum -> c for a normalised filter inside the grid, '
+                'and linearity.  Sampled behaviours are replayed into Filter.rebin with filter and grid each stored in increasing and decreasing frequency, filters read from two-column wavelength files in either row order, and '
+                'Filter.normalize; recorded random filters (2-60 samples, irregular spacing) and grids (2-80) are validated by Trace_Rebin.  convolve_model_dir end to end (flux and quadrature errors, both package formats) is replayed by the C07 check on the same spec.',
+        'ref': 'DESIGN.md section 6 C06',
+        'note': _NOTE + ' Integer frequency lattice in units of c/12um; SED grid nodes even so that bin edges are lattice points.',
+        'technique': 'TLA+ spec (exact integrals) + TLC exhaustive theorems; spec->code replay in all storage orders and through filter files; trace validation',
+    },
     'C10': {
         'text': 'FitSession.tla is the main machine: the data file written line by line, fit() as the code\'s loop (ReadLine -> skip | FitKeep -> AppendRec, a line with < 3 columns ends the input), '
                 'reading the file back, post-processing calls (3 functions x file | object | list input x selectors) and filter_output; fits come from FitKernel, selection from Select.  TLC checks '
